@@ -124,6 +124,7 @@ func (c *Ctx) pf1Sites(f *core.Func) []*pf1Site {
 	})
 	c.cache[key] = out
 	c.pf1Preconditions(f, out)
+	c.pf1FieldPreconditions(f, out)
 	return out
 }
 
@@ -225,6 +226,150 @@ func (c *Ctx) pf1Preconditions(f *core.Func, sites []*pf1Site) {
 				s.pre = fmt.Sprintf("len(%s) >= 1 at every call: %s", p.Name(), why)
 			}
 		}
+	}
+}
+
+// pf1FieldPreconditions does for a string or slice *field of a pointer
+// parameter* (`pe.Op[0]` in a helper that is handed the *ast.ParamExp) what
+// pf1Preconditions does for a parameter: the site is re-decided under the
+// assumption that the field is non-empty at entry, and the assumption is
+// verified at every call - there the call must stand in a case clause of a
+// switch over that very field of the argument whose constants are all
+// non-empty, or under a comparison of it with a non-empty constant.
+func (c *Ctx) pf1FieldPreconditions(f *core.Func, sites []*pf1Site) {
+	if f.Type.Params == nil {
+		return
+	}
+	info := f.Info()
+	for _, s := range sites {
+		if s.res.OK || s.kind != "IDX" {
+			continue
+		}
+		ix := s.node.(*ast.IndexExpr)
+		se, ok := ast.Unparen(ix.X).(*ast.SelectorExpr)
+		if !ok {
+			continue
+		}
+		pid, ok := ast.Unparen(se.X).(*ast.Ident)
+		if !ok {
+			continue
+		}
+		pv, ok := info.Uses[pid].(*types.Var)
+		if !ok || !isParamOf(f, pv) || assignedIn(f, pv) {
+			continue
+		}
+		fv := core.FieldOf(info, se)
+		if fv == nil {
+			continue
+		}
+		// the field is not written in f
+		written := false
+		f.OwnNodes(func(n ast.Node) bool {
+			if as, isAs := n.(*ast.AssignStmt); isAs {
+				for _, l := range as.Lhs {
+					if core.FieldOf(info, l) == fv {
+						written = true
+					}
+				}
+			}
+			return true
+		})
+		if written {
+			continue
+		}
+		fa := core.NewFacts(f)
+		fa.MinLenAxiom = c.minLenAxiom(info)
+		fa.AssumeMinLenOf = []ast.Expr{se}
+		var res *core.BoundsResult
+		fa.Run(func(n ast.Node, st *core.State) {
+			if n == s.node {
+				r := decide(fa, info, s.kind, n, st, c)
+				if res == nil || (res.OK && !r.OK) {
+					res = &r
+				}
+			}
+		})
+		if res == nil || !res.OK {
+			continue
+		}
+		idx, k := -1, 0
+		for _, fld := range f.Type.Params.List {
+			for _, id := range fld.Names {
+				if info.Defs[id] == types.Object(pv) {
+					idx = k
+				}
+				k++
+			}
+		}
+		calls, complete := c.callSitesOf(f)
+		if idx < 0 || !complete || len(calls) == 0 {
+			continue
+		}
+		all := true
+		var whys []string
+		for _, cs := range calls {
+			if idx >= len(cs.call.Args) {
+				all = false
+				break
+			}
+			aid, isID := ast.Unparen(cs.call.Args[idx]).(*ast.Ident)
+			if !isID {
+				all = false
+				break
+			}
+			ci := cs.in.Info()
+			av := ci.Uses[aid]
+			okSite := false
+			nonEmptyConst := func(e ast.Expr) bool {
+				sv, isC := constStr(ci, e)
+				return isC && sv != ""
+			}
+			isField := func(e ast.Expr) bool {
+				s2, isSel := ast.Unparen(e).(*ast.SelectorExpr)
+				if !isSel || core.FieldOf(ci, s2) != fv {
+					return false
+				}
+				x, isX := ast.Unparen(s2.X).(*ast.Ident)
+				return isX && ci.Uses[x] == av
+			}
+			for p := c.P.Parent(cs.call); p != nil && !okSite; p = c.P.Parent(p) {
+				cc, isCC := p.(*ast.CaseClause)
+				if !isCC || len(cc.List) == 0 {
+					continue
+				}
+				sw, isSw := c.P.Parent(c.P.Parent(cc)).(*ast.SwitchStmt)
+				if !isSw || sw.Tag == nil || !isField(sw.Tag) {
+					continue
+				}
+				good := true
+				for _, e := range cc.List {
+					if !nonEmptyConst(e) {
+						good = false
+					}
+				}
+				okSite = good
+			}
+			for _, gd := range guardsOf(c.P, cs.call, nil) {
+				if be, isBE := ast.Unparen(gd.cond).(*ast.BinaryExpr); isBE && gd.pos && be.Op == token.EQL && isField(be.X) && nonEmptyConst(be.Y) {
+					okSite = true
+				}
+			}
+			if av != nil {
+				if v, isVar := av.(*types.Var); isVar && assignedIn(cs.in, v) && !isParamOf(cs.in, v) {
+					okSite = false
+				}
+			}
+			if !okSite {
+				all = false
+				break
+			}
+			whys = append(whys, cs.in.Short)
+		}
+		if !all {
+			continue
+		}
+		s.res = *res
+		s.pre = fmt.Sprintf("len(%s.%s) >= 1 at every call (the call stands under a case of that field with non-empty constants): %s", pv.Name(), fv.Name(), strings.Join(whys, ", "))
 	}
 }
 
